@@ -1,5 +1,5 @@
 (** C12 — comparison of implementation observations with the models (run by the check). *)
-From GV Require Export Lex.Cursor Lex.Check Lex.Lexers.
+From GV Require Export Lex.Cursor Lex.Check Lex.Lexers Lex.Values.
 Open Scope Z_scope.
 
 (** *** lexers: token classes and spans, or a panic *)
@@ -10,7 +10,9 @@ Definition tok_eqb (a b : Z * Z * Z) : bool :=
 
 Definition lex_of (lang : Z) (s : src) : out (list (Z * Z * Z)) :=
   if lang =? 0 then lex_gql s else if lang =? 1 then lex_cypher s else if lang =? 2 then lex_sparql s
-  else if lang =? 3 then lex_gremlin s else if lang =? 4 then lex_graphql s else lex_gql_pre s.
+  else if lang =? 3 then lex_gremlin s
+  else if lang =? 4 then (r <- lex_graphql_full s ;; Done (fst r))      (* tokenize() also computes the block-string values *)
+  else lex_gql_pre s.
 
 Definition chk_lex (lang : Z) (s : src) (o : lobs) : bool :=
   match lex_of lang s, o with
@@ -20,12 +22,28 @@ Definition chk_lex (lang : Z) (s : src) (o : lobs) : bool :=
   | _, _ => false
   end.
 
+(** the values of the GraphQL block-string tokens (code points), [None] = the lexer panicked *)
+Definition chk_gq_values (s : src) (o : option (list (list Z))) : bool :=
+  match lex_graphql_full s, o with
+  | Done (_, vs), Some ws => list_eqb zlist_eqb vs ws
+  | Crash, None => true
+  | _, _ => false
+  end.
+
 (** the whitespace table of the model against Rust's [char::is_whitespace] (flag bit 2) *)
 Definition chk_ws (s : src) : bool := forallb (fun c => Bool.eqb (is_ws (cp c)) (Z.testbit (fl c) 2)) s.
 
 (** finding class C12-K1: the GraphQL lexer slices [source] at a character count *)
 Definition k_graphql_peek_next (s : src) : bool :=
   match lex_graphql s with Crash => true | _ => false end.
+
+(** finding class C12-K7: the lexer itself gets through, [dedent_block_string] slices a line of a
+    block string inside a multi-byte character *)
+Definition k_graphql_dedent (s : src) : bool :=
+  match lex_graphql s with
+  | Done ts => match block_values s ts with Crash => true | _ => false end
+  | _ => false
+  end.
 
 (** *** arithmetic and index arithmetic of filter.rs *)
 From GV Require Export Lex.Arith Lex.Progress.
